@@ -42,3 +42,156 @@ package test
 //@   opt inline=off
 //@   opt panics=allowed
 //@   callsite cacheOutputFiles only_when_all_succeeded [C11]: target.Test.Results.TestCases.AllSucceeded()
+
+// ---------------------------------------------------------------------------------------------
+// Parsing test outcomes (C26): what the JUnit XML reader makes of the decoded elements.
+//
+// Every append* helper adds exactly one execution of its own outcome class and keeps the earlier ones.
+//@ spec keptExecs(now []core.TestExecution, before []core.TestExecution) bool = len(now) >= len(before) && \
+//@      (forall i int :: 0 <= i && i < len(before) ==> now[i] == before[i])
+//@ spec isFail(x core.TestExecution) bool = x.Failure != nil && x.Error == nil && x.Skip == nil
+//@ spec isErr(x core.TestExecution) bool = x.Failure == nil && x.Error != nil && x.Skip == nil
+//@ spec isSkip(x core.TestExecution) bool = x.Failure == nil && x.Error == nil && x.Skip != nil
+//@ spec isOK(x core.TestExecution) bool = x.Failure == nil && x.Error == nil && x.Skip == nil
+//
+//@ func appendFailure
+//@   requires results != nil
+//@   modifies results
+//@   ensures one_failure [C26]: len(results.Executions) == old(len(results.Executions)) + 1 && isFail(results.Executions[old(len(results.Executions))])
+//@   ensures earlier_kept [C26]: keptExecs(results.Executions, old(results.Executions))
+//@   ensures names_untouched [C26]: results.Name == old(results.Name) && results.ClassName == old(results.ClassName)
+//@ func appendFlakyFailure
+//@   requires results != nil
+//@   modifies results
+//@   ensures one_failure [C26]: len(results.Executions) == old(len(results.Executions)) + 1 && isFail(results.Executions[old(len(results.Executions))])
+//@   ensures earlier_kept [C26]: keptExecs(results.Executions, old(results.Executions))
+//@   ensures names_untouched [C26]: results.Name == old(results.Name) && results.ClassName == old(results.ClassName)
+//@ func appendRerunFailure
+//@   requires results != nil
+//@   modifies results
+//@   ensures one_failure [C26]: len(results.Executions) == old(len(results.Executions)) + 1 && isFail(results.Executions[old(len(results.Executions))])
+//@   ensures earlier_kept [C26]: keptExecs(results.Executions, old(results.Executions))
+//@   ensures names_untouched [C26]: results.Name == old(results.Name) && results.ClassName == old(results.ClassName)
+//@ func appendError
+//@   requires results != nil
+//@   modifies results
+//@   ensures one_error [C26]: len(results.Executions) == old(len(results.Executions)) + 1 && isErr(results.Executions[old(len(results.Executions))])
+//@   ensures earlier_kept [C26]: keptExecs(results.Executions, old(results.Executions))
+//@   ensures names_untouched [C26]: results.Name == old(results.Name) && results.ClassName == old(results.ClassName)
+//@ func appendFlakyError
+//@   requires results != nil
+//@   modifies results
+//@   ensures one_error [C26]: len(results.Executions) == old(len(results.Executions)) + 1 && isErr(results.Executions[old(len(results.Executions))])
+//@   ensures earlier_kept [C26]: keptExecs(results.Executions, old(results.Executions))
+//@   ensures names_untouched [C26]: results.Name == old(results.Name) && results.ClassName == old(results.ClassName)
+//@ func appendRerunError
+//@   requires results != nil
+//@   modifies results
+//@   ensures one_error [C26]: len(results.Executions) == old(len(results.Executions)) + 1 && isErr(results.Executions[old(len(results.Executions))])
+//@   ensures earlier_kept [C26]: keptExecs(results.Executions, old(results.Executions))
+//@   ensures names_untouched [C26]: results.Name == old(results.Name) && results.ClassName == old(results.ClassName)
+//@ func appendSkipped
+//@   requires results != nil
+//@   modifies results
+//@   ensures one_skip [C26]: len(results.Executions) == old(len(results.Executions)) + 1 && isSkip(results.Executions[old(len(results.Executions))])
+//@   ensures earlier_kept [C26]: keptExecs(results.Executions, old(results.Executions))
+//@   ensures names_untouched [C26]: results.Name == old(results.Name) && results.ClassName == old(results.ClassName)
+//@ func appendSuccess
+//@   requires results != nil
+//@   modifies results
+//@   ensures one_success [C26]: len(results.Executions) == old(len(results.Executions)) + 1 && isOK(results.Executions[old(len(results.Executions))])
+//@   ensures earlier_kept [C26]: keptExecs(results.Executions, old(results.Executions))
+//@   ensures names_untouched [C26]: results.Name == old(results.Name) && results.ClassName == old(results.ClassName)
+//
+// appendResult: the case's own outcome comes first and is of the class the element states (failure before
+// error before skipped, success otherwise); every recorded flaky or rerun attempt adds one further execution
+// of its class; the name fields of the case are left alone.
+//@ func appendResult
+//@   requires results != nil
+//@   modifies results
+//@   invariant "range test.FlakyFailure" count: len(results.Executions) == atloop(len(results.Executions)) + idx && keptExecs(results.Executions, atloop(results.Executions)) && \
+//@      results.Name == old(results.Name) && results.ClassName == old(results.ClassName) && \
+//@      (forall j int :: atloop(len(results.Executions)) <= j && j < len(results.Executions) ==> isFail(results.Executions[j]))
+//@   invariant "range test.FlakyError" count: len(results.Executions) == atloop(len(results.Executions)) + idx && keptExecs(results.Executions, atloop(results.Executions)) && \
+//@      results.Name == old(results.Name) && results.ClassName == old(results.ClassName) && \
+//@      (forall j int :: atloop(len(results.Executions)) <= j && j < len(results.Executions) ==> isErr(results.Executions[j]))
+//@   invariant "range test.RerunFailure" count: len(results.Executions) == atloop(len(results.Executions)) + idx && keptExecs(results.Executions, atloop(results.Executions)) && \
+//@      results.Name == old(results.Name) && results.ClassName == old(results.ClassName) && \
+//@      (forall j int :: atloop(len(results.Executions)) <= j && j < len(results.Executions) ==> isFail(results.Executions[j]))
+//@   invariant "range test.RerunError" count: len(results.Executions) == atloop(len(results.Executions)) + idx && keptExecs(results.Executions, atloop(results.Executions)) && \
+//@      results.Name == old(results.Name) && results.ClassName == old(results.ClassName) && \
+//@      (forall j int :: atloop(len(results.Executions)) <= j && j < len(results.Executions) ==> isErr(results.Executions[j]))
+//@   ensures execution_count [C26]: len(results.Executions) == old(len(results.Executions)) + 1 + \
+//@      len(test.FlakyFailure) + len(test.FlakyError) + len(test.RerunFailure) + len(test.RerunError)
+//@   ensures earlier_kept [C26]: keptExecs(results.Executions, old(results.Executions))
+//@   ensures own_outcome_first [C26]: \
+//@      (test.Failure != nil ==> isFail(results.Executions[old(len(results.Executions))])) && \
+//@      (test.Failure == nil && test.Error != nil ==> isErr(results.Executions[old(len(results.Executions))])) && \
+//@      (test.Failure == nil && test.Error == nil && test.Skipped != nil ==> isSkip(results.Executions[old(len(results.Executions))])) && \
+//@      (test.Failure == nil && test.Error == nil && test.Skipped == nil ==> isOK(results.Executions[old(len(results.Executions))]))
+//@   ensures attempts_never_pass [C26]: forall j int :: old(len(results.Executions)) < j && j < len(results.Executions) ==> !isOK(results.Executions[j])
+//@   ensures names_untouched [C26]: results.Name == old(results.Name) && results.ClassName == old(results.ClassName)
+//
+//@ func toCoreCached
+//@   modifies nothing
+//@   opt nopanic=off
+//@ func toCoreProperties
+//@   modifies nothing
+//@   opt nopanic=off
+//
+// toCoreTestSuite: one case per <testcase>, in order, under the same name and class name, each with the
+// executions appendResult gives it.
+//@ func toCoreTestSuite
+//@   requires xmlTestSuite != nil
+//@   modifies nothing
+//@   invariant "range xmlTestSuite.TestCases" cases: len(testSuite.TestCases) == idx && \
+//@      (forall j int :: 0 <= j && j < idx ==> testSuite.TestCases[j].Name == xmlTestSuite.TestCases[j].Name && \
+//@         testSuite.TestCases[j].ClassName == xmlTestSuite.TestCases[j].ClassName && \
+//@         len(testSuite.TestCases[j].Executions) == 1 + len(xmlTestSuite.TestCases[j].FlakyFailure) + len(xmlTestSuite.TestCases[j].FlakyError) + \
+//@            len(xmlTestSuite.TestCases[j].RerunFailure) + len(xmlTestSuite.TestCases[j].RerunError))
+//@   ensures one_case_per_testcase [C26]: len(result.TestCases) == len(xmlTestSuite.TestCases)
+//@   ensures same_names_in_order [C26]: forall j int :: 0 <= j && j < len(xmlTestSuite.TestCases) ==> \
+//@      result.TestCases[j].Name == xmlTestSuite.TestCases[j].Name && result.TestCases[j].ClassName == xmlTestSuite.TestCases[j].ClassName
+//@   ensures execution_counts [C26]: forall j int :: 0 <= j && j < len(xmlTestSuite.TestCases) ==> \
+//@      len(result.TestCases[j].Executions) == 1 + len(xmlTestSuite.TestCases[j].FlakyFailure) + len(xmlTestSuite.TestCases[j].FlakyError) + \
+//@         len(xmlTestSuite.TestCases[j].RerunFailure) + len(xmlTestSuite.TestCases[j].RerunError)
+//@   ensures suite_name [C26]: result.Name == xmlTestSuite.Name && result.Package == xmlTestSuite.Package
+//
+// parseJUnitXMLTestResults: every case handed to appendResult already carries the name and class name of the
+// element it is built from (cases are later merged BY NAME, so a lost name turns two cases into two executions
+// of one, and a failure next to a pass into a flaky pass); every suite of a <testsuites> element is kept.
+// (precall=off: that encoding/xml leaves no nil pointer in a slice it decodes is assumed, not proved.)
+//@ func parseJUnitXMLTestResults
+//@   opt nopanic=off
+//@   opt precall=off
+//@   invariant "range xmlTestSuites.TestSuites" every_suite_kept: len(results.TestSuites) == atloop(len(results.TestSuites)) + idx
+//@   callsite appendResult name_kept [C26]: deref(arg_results).Name == arg_test.Name
+//
+// parseGoTestResults: the `go test -v` reader runs with its default options (a subtest mode would drop or
+// re-attribute results of parent tests); every test of the (single) package of the report becomes exactly one
+// case, in order, under its own name, with exactly one execution, of the class the report states.
+//@ func parseGoTestResults
+//@   opt nopanic=off
+//@   callsite gotest.NewParser default_options [C26]: len(arg_options) == 0
+//@   invariant "range pkg.Tests" one_case_per_test: len(suite.TestCases) == idx && \
+//@      (forall j int :: 0 <= j && j < idx ==> suite.TestCases[j].Name == pkg.Tests[j].Name && len(suite.TestCases[j].Executions) == 1 && \
+//@         (pkg.Tests[j].Result == gtr.Fail ==> isFail(suite.TestCases[j].Executions[0])) && \
+//@         (pkg.Tests[j].Result == gtr.Skip ==> isSkip(suite.TestCases[j].Executions[0])) && \
+//@         (pkg.Tests[j].Result == gtr.Pass ==> isOK(suite.TestCases[j].Executions[0])))
+//
+// The verdict (C26): a test target is reported as tested (passing) EXACTLY WHEN every case succeeded in some
+// execution or was skipped; otherwise it is reported as failed, with the suite it was judged on.
+//@ assume func (BuildState).LogTestResult
+//@ func logTestSuccess
+//@   requires state != nil && target != nil && results != nil
+//@   opt nopanic=off
+//@   callsite (BuildState).LogTestResult as_tested [C26]: arg_status == core.TargetTested && arg_results == results && arg_target == target && arg_err == nil
+//@   returnsite reported [C26]: called("(BuildState).LogTestResult")
+//@ func logTargetResults
+//@   requires state != nil && target != nil && target.Test != nil && target.Test.Results != nil
+//@   opt nopanic=off
+//@   callsite logTestSuccess only_when_every_case_succeeded_or_was_skipped [C26]: target.Test.Results.TestCases.AllSucceeded() && \
+//@      arg_results == target.Test.Results && arg_target == target
+//@   callsite (BuildState).LogTestResult failed_when_some_case_did_not [C26]: !target.Test.Results.TestCases.AllSucceeded() && \
+//@      arg_status == core.TargetTestFailed && arg_results == target.Test.Results && arg_target == target
+//@   returnsite a_verdict_is_always_reported [C26]: called("(BuildState).LogTestResult") || called("logTestSuccess")
